@@ -80,6 +80,21 @@ pub fn case(x: &Xfer) -> CaseOut {
             );
         }
     }
+    // queued datagrams leave (or are discarded) once nothing holds the sender back: with nothing in
+    // flight, no loss-detection or pacing timer, a validated path and an empty link, a non-empty send
+    // queue can only hold datagrams that no longer fit a packet - which must have been dropped
+    if w.queue.is_empty() {
+        for c in &w.conns {
+            let p = c.c.verif_probe();
+            let held = p.timers_armed.iter().any(|t| *t == "LossDetection" || *t == "Pacing");
+            if p.state == 1 && c.app.lost.is_empty() && p.datagram_outgoing > 0 && p.bytes_in_flight == 0 && !held && p.path_validated {
+                return CaseOut::fail(
+                    "c16/send-queue-stuck",
+                    format!("{:?}: {} datagrams ({} bytes) stay queued although the connection is idle (nothing in flight, no loss-detection or pacing timer, path validated, window {}); path MTU estimate {}", c.side, p.datagram_outgoing, p.datagram_outgoing_total, p.congestion_window, p.current_mtu),
+                );
+            }
+        }
+    }
     let sent: u64 = w.conns.iter().map(|c| c.app.stats.dgram_sent).sum();
     let recv: u64 = w.conns.iter().map(|c| c.app.stats.dgram_recv).sum();
     let at_max: u64 = w.conns.iter().map(|c| c.app.stats.dgram_at_max).sum();
